@@ -32,11 +32,11 @@ def run_map(pid, kind, tier, seed, caps_mc, caps_sim, assumptions):
     res8 = "{0, 1, 2, 3, 4, 5, 6, 7}"
     if kind == "hm":
         small = dict(KeySeq="<-KS3", Kind=K, Cap0s="{1, 4}", Mod="12", ResSet="{0, 3, 6, 9}", MaxV="4")
-        oa = dict(small, KeySeq="<-KS4") if not thorough else \
-            dict(small, KeySeq="<-KS5", Mod="36", ResSet="{0, 3, 6, 9, 12, 15, 18, 21, 24, 27, 30, 33}")
+        # thorough: every initial capacity whose growth chain stays within divisors of 12 (1-3-4-6, 2-3-4-6, 3-4-6, 4-6)
+        oa = dict(small, KeySeq="<-KS4") if not thorough else dict(small, KeySeq="<-KS4", Cap0s="{1, 2, 3, 4}")
     else:
         small = dict(KeySeq="<-KS3", Kind=K, Cap0s="{2}", Mod="8", ResSet=res8, MaxV="4")
-        oa = dict(small, KeySeq="<-KS4") if not thorough else dict(small, KeySeq="<-KS5", Cap0s="{2, 8}")
+        oa = dict(small, KeySeq="<-KS4") if not thorough else dict(small, KeySeq="<-KS5")
     # value-precise for three keys, then every layout (value ids abstracted by the VIEW) for more keys
     mc(run, "OpenAddr.tla", small, oa_inv, pid + "-OpenAddrMC", workers=8, timeout=1800)
     mc(run, "OpenAddr.tla", dict(oa, MaxV="0"), oa_inv, pid + "-OpenAddrLayouts", workers=8, timeout=3600, view="Layout")
